@@ -83,7 +83,7 @@ Theorem C15_k8s_params : forall s n, k_neighbor s = Some n ->
   kn_password n = s_password s /\ kn_secret n = s_secret s.
 Proof. exact k_neighbor_params. Qed.
 
-(* ... except the source address (finding F19): "all session parameters are
+(* ... except the source address (finding F24): "all session parameters are
    carried" is refuted; C15_k8s_params above is the partial statement *)
 Theorem C15_k8s_params_source_refuted : exists s n,
   k_neighbor s = Some n /\ s_src s = Some "10.1.1.254" /\ kn_source n = "".
